@@ -8,6 +8,7 @@ V = '/verif'
 ap = argparse.ArgumentParser()
 ap.add_argument('--kind', choices=['seeded', 'neutral'], required=True)
 ap.add_argument('--jobs', type=int, default=8)
+ap.add_argument('--tag', default='', help='distinguishes the scratch paths of two concurrent runs')
 ap.add_argument('names', nargs='*')
 a = ap.parse_args()
 props = ['C%02d' % i for i in range(1, 21)]
@@ -23,9 +24,9 @@ lock = threading.Lock()
 
 
 def worker(i):
-    wt = '/tmp/pw-%d' % i
-    cache = '/tmp/pw-%d-cache' % i
-    ev = '/tmp/pw-%d-evidence' % i
+    wt = '/tmp/pw%s-%d' % (a.tag, i)
+    cache = '/tmp/pw%s-%d-cache' % (a.tag, i)
+    ev = '/tmp/pw%s-%d-evidence' % (a.tag, i)
     with lock:      # concurrent `git worktree add` calls race on .git/worktrees
         subprocess.run(['git', '-C', '/repo', 'worktree', 'add', '-q', '--detach', wt, 'HEAD'], check=True)
     shutil.copytree(V + '/.cache', cache, symlinks=True, ignore=shutil.ignore_patterns('extract.lock'))
